@@ -225,6 +225,9 @@ class MiniEval:
         finally:
           pass
         self.block(st.finalbody, env, f, depth)
+      elif isinstance(st, (ast.Import, ast.ImportFrom)) and all((a_.name.split(".")[0] if isinstance(st, ast.Import) else (st.module or "").split(".")[0]) in ("unicodedata", "re", "math", "html", "fractions", "typing", "numbers")
+                                                                     for a_ in st.names):
+        pass          # a local import of a standard module the interpreter models: the names are resolved where they are used
       elif isinstance(st, ast.ClassDef) and isinstance(getattr(st, "_info", None), ClassInfo):
         env[st.name] = st._info            # a class defined inside the function (an enumeration of states, say)
       else:
@@ -640,6 +643,8 @@ class MiniEval:
     raise NotConst("comparison")
 
   def attribute(self, e, env, f, depth):
+    if isinstance(e.value, ast.Name) and e.value.id == "numbers" and "numbers" not in env and e.attr in ("Number", "Real", "Rational", "Integral"):
+      return (int,) if e.attr == "Integral" else (int, float, Fraction)        # the abstract numeric types, as the concrete types the package uses
     # a dotted name of the package (model.Br, styles.StyleProperties.Color, ISD._make_absolute)
     head = e
     while isinstance(head, ast.Attribute):
@@ -804,6 +809,14 @@ class MiniEval:
         if isinstance(args[0], (str, int, float, Fraction, list, tuple, set, bytes, bool)) or args[0] is None or (isinstance(args[0], dict) and not args[0].get("__record__")):
           return type(args[0])
         raise NotConst("type() of a value without a class of the package")
+      if b in ("ceil", "floor", "trunc", "isclose", "gcd") and all(isinstance(a_, (int, float, Fraction)) for a_ in args):
+        import math as _math
+        try:
+          return getattr(_math, b)(*args)
+        except (TypeError, ValueError, OverflowError):
+          raise Raised()
+      if b in ("staticmethod", "classmethod", "property") and len(args) == 1 and b != "property":
+        return args[0]           # the function itself: calls through the class reach it with the arguments given
       if b in ("ord", "chr") and len(args) == 1:
         try:
           return ord(args[0]) if b == "ord" else chr(args[0])
@@ -828,6 +841,14 @@ class MiniEval:
         if isinstance(args[0], Node):
           return self.kind_matches(args[0], args[1])
         specs = args[1] if isinstance(args[1], (tuple, list)) else [args[1]]
+        flat_ = []
+        for s_ in specs:
+          flat_.extend(s_ if isinstance(s_, tuple) and all(isinstance(x_, type) for x_ in s_) else [s_])
+        specs = flat_
+        pyt_ = tuple(s_ for s_ in specs if isinstance(s_, type))
+        if pyt_ and not isinstance(args[0], (Node, EnumMember)) and not (isinstance(args[0], dict) and args[0].get("__record__")) and args[0] is not None:
+          if isinstance(args[0], pyt_) and not (isinstance(args[0], bool) and bool not in pyt_ and int not in pyt_):
+            return True
         names = {s.name for s in specs if isinstance(s, ClassInfo)}
         if args[0] is None:
           return False
@@ -844,7 +865,7 @@ class MiniEval:
         return list(zip(*[self.iterate(a) for a in args]))
       if b == "range":
         return list(range(*args))
-      if b in ("min", "max", "sum", "abs", "any", "all", "int", "bool", "str", "round", "next"):
+      if b in ("min", "max", "sum", "abs", "any", "all", "int", "bool", "str", "round", "next", "float", "divmod", "pow", "repr", "hash"):
         try:
           if b in ("any", "all", "sum", "min", "max") and len(args) == 1:
             args = [self.iterate(args[0])]
@@ -862,8 +883,11 @@ class MiniEval:
             if len(args) > 1:
               return args[1]
             raise Raised()
-          return {"min": min, "max": max, "sum": sum, "abs": abs, "any": any, "all": all, "int": int, "bool": bool, "str": str, "round": round}[b](*args)
-        except (TypeError, ValueError):
+          if b in ("repr", "str", "hash") and args and isinstance(args[0], (Node, dict, EnumMember, Sym, ClassInfo)):
+            raise NotConst(f"{b}() of a sample object")
+          return {"min": min, "max": max, "sum": sum, "abs": abs, "any": any, "all": all, "int": int, "bool": bool, "str": str, "round": round, "float": float, "divmod": divmod, "pow": pow,
+                  "repr": repr, "hash": hash}[b](*args)
+        except (TypeError, ValueError, ZeroDivisionError, OverflowError):
           raise Raised()
       if b == "Fraction":
         try:
@@ -881,6 +905,13 @@ class MiniEval:
       if fn.attr == "sub" and len(args) == 3 and all(isinstance(a, str) for a in args):
         return _re.sub(*args)
       raise NotConst(f"re.{fn.attr}")
+    if isinstance(fn, ast.Attribute) and isinstance(fn.value, ast.Name) and fn.value.id == "math" and "math" not in env and fn.attr in ("ceil", "floor", "trunc", "gcd", "isclose", "fabs") \
+        and all(isinstance(a_, (int, float, Fraction)) for a_ in args):
+      import math as _math
+      try:
+        return getattr(_math, fn.attr)(*args)
+      except (TypeError, ValueError, OverflowError):
+        raise Raised()
     if isinstance(fn, ast.Attribute) and isinstance(fn.value, ast.Name) and fn.value.id == "html" and "html" not in env and fn.attr in ("unescape", "escape") \
         and args and isinstance(args[0], str):
       import html as _html
